@@ -104,6 +104,51 @@ def run_env(label: str, cfg: Dict[str, Any], steps: int, episodes: int, rng: ran
     return traces
 
 
+def run_tour(facet: str, seed: int, rec: Applied, chk: common.Check, visits: int):
+    """Transition tour of spec/Lifecycle.tla through a masking environment: the mask of EVERY action-map entry is
+    compared with the harness' walk at the first `visits` visits of every abstract (power x component) state, and every
+    applied request is recorded as usual."""
+    from primaite.session.environment import PrimaiteGymEnv
+
+    from . import tour
+
+    g = tour.graph(facet)
+    eps, st = tour.tour(g, random.Random(seed), episode_len=300)
+    chk.add_mc(f"Lifecycle({facet})", g["tlc"])
+    chk.cov[f"tour_{facet}"] = st
+    cfg, idx = tour.scenario(facet, masking=True)
+    env = PrimaiteGymEnv(env_config=cfg)
+    traces = []
+    seen: Dict[Any, int] = {}
+    for ei, ep in enumerate(eps):
+        env.reset(seed=seed + ei)
+        rec.on = True
+        rec.events, rec.meta = [], []
+        acts = []
+        for a, state in zip(ep, tour.states_along(g, ep)):
+            acts.append(a)
+            mark = len(rec.events)
+            if a == "red-compromise":
+                tour.compromise(env.game, facet)
+            try:
+                env.step(idx[a])
+            except Exception as e:  # noqa - C01's business
+                chk.notes.append(f"tour:{facet}: env.step raised {type(e).__name__} (reported by C01); episode abandoned")
+                break
+            seen[state] = seen.get(state, 0) + 1
+            if seen[state] <= visits:
+                all_entries(env, rec)
+            if len(rec.events) > mark:
+                traces.append({"cfg": {"dig": 0}, "ev": rec.events[mark:],
+                               "meta": {"scenario": f"tour:{facet}", "episode": ei, "step": len(acts), "requests": rec.meta[mark:]},
+                               "stimulus": {"scenario": f"tour:{facet}", "episode": ei, "actions": list(acts)}})
+                chk.add_case({"s": f"tour:{facet}", "e": ei, "t": len(acts), "m": [e["mask"] for e in rec.events[mark:]]}, nontrivial=True)
+        rec.on = False
+    env.close()
+    chk.cov[f"tour_{facet}_states_masked"] = len(seen)
+    return traces
+
+
 def generated_cfg(base: Dict[str, Any], rng: random.Random, per_type: int) -> Dict[str, Any]:
     """Replace the proxy agent of `base` (or add one) by one whose action map is drawn from all action types."""
     game = scenarios.build(base)
@@ -173,6 +218,8 @@ def main(tier: str, seed: int) -> int:
         traces += run_env("uc7+masking", uc7, 80, 1, rng, rec, chk)
         wl = scenarios.test_asset("wireless_wan_network_config.yaml")
         traces += run_env("wireless+all_actions", generated_cfg(wl, rng, 3), 60, 1, rng, rec, chk)
+    for facet in ("svc", "app", "fs"):
+        traces += run_tour(facet, seed, rec, chk, visits=1 if tier == "quick" else 3)
     res = tlc.validate("RequestsTrace", traces, chunk=60)
     common.judge_traces(chk, "Requests", traces, res, sig_fn, selftest="RequestsTrace")
     for tr in traces[:1]:
